@@ -97,11 +97,11 @@ Theorem C07_flattened : forall tau f D, f <> [] -> all_depth D f ->
 Proof. exact flattened_levels. Qed.
 Print Assumptions C07_flattened.
 
-(** label texts: strings verbatim (no carriage return, not empty), numbers as Python's
-    text of the number, dates as the serial number with one decimal *)
+(** label texts: strings verbatim (no carriage return; the empty string included), numbers
+    as Python's text of the number, dates as the serial number with one decimal *)
 Theorem C07_label_text :
-  (forall b f D s, cat_numeric f D = false -> no_cr s = true -> s <> [] -> cat_text b f D (LStr s) = s) /\
-  (forall b f t, cat_numeric f 1 = true -> no_cr t = true -> t <> [] -> cat_text b f 1 (LNum t) = t) /\
+  (forall b f D s, cat_numeric f D = false -> no_cr s = true -> cat_text b f D (LStr s) = s) /\
+  (forall b f t, cat_numeric f 1 = true -> no_cr t = true -> cat_text b f 1 (LNum t) = t) /\
   (forall b f y m d, cat_numeric f 1 = true ->
      cat_text b f 1 (LDate y m d) = show_Z (excel_serial b y m d) ++ s_dot0).
 Proof. exact (conj cat_text_str (conj cat_text_num cat_text_date)). Qed.
@@ -125,11 +125,17 @@ Example C07_serial_leap_bug :
   excel_serial false 1900 1 1 = 1 /\ excel_serial true 1904 1 2 = 1.
 Proof. repeat split. Qed.
 
-Theorem C07_categories_empty_label_refuted : exists ct f sers c p,
+(** an empty label is reported as the empty string (was refuted before fix fc4e9fce) *)
+Theorem C07_categories_empty_label : forall b f D, cat_numeric f D = false -> cat_text b f D (LStr []) = [].
+Proof. exact (fun b f D H => cat_text_str b f D [] H eq_refl). Qed.
+Print Assumptions C07_categories_empty_label.
+
+Example C07_empty_label_regression : exists ct f sers c p,
   write ct (DCat f None sers) = Ok c /\ ch_plots c = [p] /\
-  plot_cat_labels p <> map (fun t => label_str (tree_label t)) f /\ plot_cat_labels p = [s_None; [98%N]].
-Proof. exact empty_label_refuted. Qed.
-Print Assumptions C07_categories_empty_label_refuted.
+  f = [CatNode (LStr []) []; CatNode (LStr [98%N]) []] /\
+  plot_cat_labels p = map (fun t => label_str (tree_label t)) f /\ plot_cat_labels p = [[]; [98%N]] /\
+  plot_flattened p = [[[]]; [[98%N]]].
+Proof. exact empty_label_regression. Qed.
 
 Theorem C07_date_format_quote_refuted : exists ct d, data_len d = 1%nat /\ write ct d = Err OtherErr.
 Proof. exact date_quote_refuted. Qed.
